@@ -37,6 +37,7 @@ pub fn ref_plan(op: &Op, env: &Option<String>) -> Plan {
         stratum: "ref".into(),
         exec_seed: 0,
         shuttle: false,
+        engine: String::new(),
         hash_base: 0,
         env_before: env.clone(),
         // the call runs on a fresh thread whose keys are (base 0, first draw): the
